@@ -114,6 +114,20 @@ def paths_or_undecided(R, clause, paths):
                replay=dict(kind="frame", where=bad[0][1][0][1]))
     else:
         R.ok(f"{base}/frame", "structural", f"{len(paths)} path(s): every heap write goes to an object created by the call or its harness")
+    # preconditions of the contracts the call relied on (callee `requires` clauses)
+    bad = []
+    def walk(evs, sig):
+        for e in evs:
+            if e and e[0] == "requires-failed":
+                bad.append((sig, e[1], e[2]))
+            elif e and e[0] == "rep":
+                walk(e[4], sig)
+    for p in paths:
+        walk(getattr(p.ctx, "trace", ()), p.ctx.signature())
+    if bad:
+        R.fail(f"{base}/callee-preconditions", f"{bad[0][1]}: {bad[0][2]} on path {bad[0][0]} (+{len(bad) - 1} more)", replay=dict(kind="requires", callee=bad[0][1]))
+    else:
+        R.ok(f"{base}/callee-preconditions", "structural", "every contract the call relied on was used within its precondition")
     return True
 
 
